@@ -9,12 +9,22 @@ double __CPROVER_uninterpreted_libm_sqrt(double);
 double __CPROVER_uninterpreted_libm_asin(double);
 double __CPROVER_uninterpreted_libm_pow(double, double);
 double __CPROVER_uninterpreted_libm_atan(double);
+#if defined(V_RESTRICT_LEAVES) && defined(LIBM_CONCRETE_IN_PREPASS)
+/* refutation pre-pass of the geometry lemmas only (DESIGN 3.2): ONE concrete interpretation of the unknown functions.  A
+ * counterexample under one interpretation is a counterexample of the obligation, which is stated for every
+ * interpretation; a SUCCESS of such a run proves nothing and is discarded.                                            */
+double cos(double x) { return x * 0.25 + 0.375; }
+double sin(double x) { return x * 0.5 + 0.125; }
+double sqrt(double x) { return x * 0.5 + 0.25; }
+double pow(double x, double y) { return x * x + y * 0.125; }
+#else
 double cos(double x) { return __CPROVER_uninterpreted_libm_cos(x); }
 double sin(double x) { return __CPROVER_uninterpreted_libm_sin(x); }
+double sqrt(double x) { return __CPROVER_uninterpreted_libm_sqrt(x); }
+double pow(double x, double y) { return __CPROVER_uninterpreted_libm_pow(x, y); }
+#endif
 double log(double x) { return __CPROVER_uninterpreted_libm_log(x); }
 double exp(double x) { double r = __CPROVER_uninterpreted_libm_exp(x); __CPROVER_assume(r >= 0.0 || __CPROVER_isnand(r)); return r; }
-double sqrt(double x) { return __CPROVER_uninterpreted_libm_sqrt(x); }
 double asin(double x) { return __CPROVER_uninterpreted_libm_asin(x); }
 double atan(double x) { return __CPROVER_uninterpreted_libm_atan(x); }
-double pow(double x, double y) { return __CPROVER_uninterpreted_libm_pow(x, y); }
 #endif
